@@ -14,5 +14,5 @@ Fixpoint mismatches (i : Z) (cs : list (list Z * list Z)) : list Z :=
   match cs with
   | [] => []
   | (c, e) :: r =>
-      if list_eqb (run_case c) e then mismatches (i + 1) r else i :: mismatches (i + 1) r
+      if list_eqb (run_case2 c) e then mismatches (i + 1) r else i :: mismatches (i + 1) r
   end.
